@@ -433,7 +433,7 @@ class Check:
         self.assumptions = []
         self.floor = 2
         import glob
-        for old in glob.glob(os.path.join(OUT, "replays", f"{prop}-{tier}-*.json")):
+        for old in glob.glob(os.path.join(OUT, "replays", f"{prop}-{tier}-{self.seed}-*.json")):
             try:
                 os.unlink(old)
             except OSError:
